@@ -478,6 +478,26 @@ def f07_probe():
         shutil.rmtree(d, ignore_errors=True)
 
 
+def f07c_probe():
+    """C09 on the input class of known finding F07c (a str parameter that spells an astral character as two
+    surrogate code points): reported, see run()"""
+    import labtech
+    import ptasks
+    from labtech.types import ResultMeta, TaskResult
+    d = tempfile.mkdtemp(prefix='verif-c09-')
+    try:
+        lab = labtech.Lab(storage=d, runner_backend='serial')
+        t = ptasks.Exp(p=chr(0xD800) + chr(0xDC00))
+        type(t)._lt.cache.save(lab._storage, t, TaskResult(value=1, meta=ResultMeta(start=datetime(2024, 1, 1), duration=timedelta(seconds=1))))
+        try:
+            got = lab.cached_tasks([ptasks.Exp])
+            return 'returned equal task' if got == [t] else 'returned a different task: ' + ascii(got)[:120]
+        except BaseException as e:
+            return f'raised {type(e).__name__}'
+    finally:
+        shutil.rmtree(d, ignore_errors=True)
+
+
 def run(ctx):
     import repro
     pr.quiet()
@@ -512,6 +532,12 @@ def run(ctx):
                      for k in json.load(open(os.path.join(os.path.dirname(pr.HERE), 'known_findings.json')))['known'])
     if probe != 'returned equal task' and known_here:
         viol.append(dict(what='dict parameter with a truthy _is_task key: cached_tasks ' + probe, replay=dict(kind='probe'), known_match=pr.KNOWN_F07))
+
+    probe_c = f07c_probe()
+    dist['f07c_input_class_probe: ' + probe_c] = 1
+    if probe_c != 'returned equal task':
+        viol.append(dict(what='str parameter that spells an astral character as two surrogate code points: cached_tasks ' + probe_c,
+                         replay=dict(kind='probe'), known_match=pr.KNOWN_F07C))
 
     n_stores = 100 if ctx['tier'] == 'quick' else 800
     depth = 4 if ctx['tier'] == 'quick' else 6
